@@ -16,7 +16,8 @@ import (
 // generated in place (packageScope false) can name what is visible at pos.
 // Code generated at the top level of the file (packageScope true) can name
 // package-level declarations only. Neither can name a type that another
-// package does not export, even though a value of that type can be held.
+// package does not export, even though a value of that type can be held, nor
+// a type called like one of the variables the generated code declares.
 func unnameableTypes(
 	t types.Type,
 	pkg *types.Package,
@@ -37,6 +38,16 @@ func unnameableTypes(
 	// checkObject verifies that the name of obj, a type name declared in
 	// pkg, refers to obj where the generated code is placed.
 	checkObject := func(obj *types.TypeName, what string) {
+		generated := _generatedNames
+		if packageScope {
+			generated = _generatedModifierNames
+		}
+		if generated.MatchString(obj.Name()) {
+			errs[obj.Name()] = fmt.Errorf(
+				"%v: %v %v (declared at %v) has the name of a variable of the generated code, which would hide it there: rename it",
+				fset.Position(pos), what, obj.Name(), fset.Position(obj.Pos()))
+			return
+		}
 		if packageScope {
 			if obj.Parent() != pkg.Scope() {
 				errs[obj.Name()] = fmt.Errorf(
